@@ -231,7 +231,10 @@ def roundtrip_unit(ctx, unit):
     for i in range(unit['n']):
         name = rng.choice(NAMES)
         signed = rng.random() < 0.45
-        secret = rng.choice(SECRETS) if signed else None
+        # (an application whose secret is not configured passes '' - as good as none, on the way out and on the way in)
+        secret = rng.choice(SECRETS) if signed else (None, None, '', '')[i % 4]
+        if not signed and secret is not None:
+            ctx.count('plain_cookie_with_an_empty_secret')
         if signed:
             import copy
             value = copy.deepcopy(rng.choice(OBJECTS))
@@ -450,6 +453,20 @@ def tamper_unit(ctx, unit):
             for hdr in (f'{name}="{val}"', f'{name}={val}'):
                 tamper_one(ctx, mon, name, value, secret, signed_string, hdr, what, None)
                 ctx.count('tamper_swap')
+        # an application without a configured secret (''): whatever arrives is text, nothing is ever deserialised
+        evil_hdr = f'{name}="' + structural['evil payload, signature of evil under empty key'] + '"'
+        for empty in ('', b'', None):
+            try:
+                back = new_request(evil_hdr).get_cookie(name, default=SENT, secret=empty)
+            except Exception as e:  # noqa
+                ctx.violation(f'tampered-cookie-raises-{type(e).__name__}', f'{evil_hdr!r} read with secret {empty!r}: {e!r}', None)
+                continue
+            n = len(mon.spy.loads_calls)
+            mon.check_spy('empty secret', None)
+            ctx.count('forged_cookie_read_without_a_secret')
+            if n or (back is not SENT and not isinstance(back, str)):
+                ctx.violation('unsigned-cookie-deserialised-when-no-secret-is-configured', f'{evil_hdr[:80]!r} read with secret {empty!r}: unpickler calls {n}, value {back!r}',
+                              {'unit': {'kind': 'note', 'header': evil_hdr, 'secret': repr(empty)}})
         # other secret / other name (the signature is valid for these: the unpickler may run, the value must stay hidden)
         for s2 in SECRETS:
             if s2 == secret:
